@@ -226,7 +226,7 @@ def flush_model(rep, batch):
 def run(ctx, rep, model=True):
     n = 3 if ctx.quick else 24
     for i in range(n):
-        spec = plotgen.random_spec(ctx.rng, ndims=3, nlev=[2, 3, 1, 2][i % 4], nf=2,
+        spec = plotgen.random_spec(ctx.rng, ndims=3, nlev=[2, 3, 1, 2][i % 4], nf=[2, 3][i % 2],
                                    data=["smallint", "affine", "levelconst"][i % 3], B=2,
                                    nblk=[[2, 2, 1], [1, 2, 2], [2, 1, 2]][i % 3], origin=True, aniso=True, refine_p=0.5,
                                    layout="scatter")
@@ -243,7 +243,9 @@ def run(ctx, rep, model=True):
                 ctx.rng.shuffle(rest)
                 plist = head + rest[:19]
             for j, (nm, pos) in enumerate(plist):
-                fields = [[names[0], "grid_level"], [names[1]], [names[0], names[1], "grid_level"], ["grid_level"]][j % 4]
+                # field lists in and out of header order, with grid_level at any position
+                fields = [[names[0], "grid_level"], [names[-1], names[0]], [names[0], names[1], "grid_level"], ["grid_level"],
+                          ["grid_level", names[-1], names[1], names[0]][: 2 + len(names) - 1], [names[1]]][j % 6]
                 limit = [None, None, nlev - 1, 0, None, max(nlev - 2, 0)][j % 6]
                 serial = j % 2 == 0
                 run_case(ctx, rep, spec, cn, nm, pos, fields, limit, serial, model, path, truth,
